@@ -56,6 +56,49 @@ type Acronyms struct {
 	AB       []string
 }
 
+// TypeTable: a typed map in front of repeated list types (the stream's type table is shared by lists and maps).
+type TypeTable struct {
+	M   NamedMap
+	L1  []string
+	L2  []string
+	LM  []NamedMap
+	L3  []int32
+	L4  []int32
+	End int32
+}
+
+// TimeThenPtrs: a date in front of pointers that may be shared.
+type TimeThenPtrs struct {
+	T time.Time
+	P *Inner
+	Q *Inner
+	R *Inner
+}
+
+// HeaderFirst: a by-value struct as the FIRST field of a struct reached through a pointer (same address as the enclosing object).
+type HeaderFirst struct {
+	H    Inner
+	X    int32
+	Next *HeaderFirst
+}
+
+// IntLists: two Go slice types that share one wire type name ("[int").
+type IntLists struct {
+	A   []int
+	B   []int32
+	End int32
+}
+
+// CustomSet is a named slice type with its own wire name (the java.util.HashSet idiom).
+type CustomSet []int32
+
+func (CustomSet) HessianCodecName() string { return "java.util.HashSet" }
+
+type SlCustomSet struct {
+	L   CustomSet
+	End int32
+}
+
 type Embedded struct {
 	Base
 	X int32
@@ -330,7 +373,8 @@ var Types = []T{
 	{"uint64", ty(uint64(0)), true}, {"float32", ty(float32(0)), true}, {"float64", ty(float64(0)), true}, {"string", ty(""), true}, {"bytes", ty([]byte(nil)), true},
 	{"time", ty(time.Time{}), true},
 	{"Inner", ty(Inner{}), true}, {"*Inner", ty(&Inner{}), true}, {"CustomNamed", ty(CustomNamed{}), true},
-	{"Scalars", ty(Scalars{}), false}, {"Acronyms", ty(Acronyms{}), true}, {"Embedded", ty(Embedded{}), true}, {"EmbeddedPtr", ty(EmbeddedPtr{}), true}, {"Nested", ty(Nested{}), true}, {"Ptrs", ty(Ptrs{}), true},
+	{"Scalars", ty(Scalars{}), false}, {"Acronyms", ty(Acronyms{}), true}, {"TypeTable", ty(TypeTable{}), true}, {"TimeThenPtrs", ty(TimeThenPtrs{}), true},
+	{"*HeaderFirst", ty(&HeaderFirst{}), true}, {"*Nested", ty(&Nested{}), true}, {"IntLists", ty(IntLists{}), true}, {"SlCustomSet", ty(SlCustomSet{}), true}, {"topCustomSet", ty(CustomSet(nil)), true}, {"Embedded", ty(Embedded{}), true}, {"EmbeddedPtr", ty(EmbeddedPtr{}), true}, {"Nested", ty(Nested{}), true}, {"Ptrs", ty(Ptrs{}), true},
 	{"SlBool", ty(SlBool{}), true}, {"SlI8", ty(SlI8{}), true}, {"SlI16", ty(SlI16{}), true}, {"SlI32", ty(SlI32{}), true}, {"SlI", ty(SlI{}), true}, {"SlI64", ty(SlI64{}), true},
 	{"SlU16", ty(SlU16{}), true}, {"SlU32", ty(SlU32{}), true}, {"SlU", ty(SlU{}), true}, {"SlU64", ty(SlU64{}), true}, {"SlF32", ty(SlF32{}), true}, {"SlF64", ty(SlF64{}), true},
 	{"SlStr", ty(SlStr{}), true}, {"SlBin", ty(SlBin{}), true}, {"SlTime", ty(SlTime{}), true}, {"SlInner", ty(SlInner{}), true}, {"SlPInner", ty(SlPInner{}), true},
